@@ -26,10 +26,22 @@ ASOL = 4.0 * SSOL / CLIGHT
 RT3 = math.sqrt(3.0)
 
 
+REGRESSION = [  # far-field position bands where the piecewise quadrature used to stop early (fixed in 42e3d5a)
+    dict(trad_bc_ev=279.5492617426333, opac=0.3027078068389274, eps=0.1, x=1.158038838748955, tau=13.820528111401947, kind="decay"),
+    dict(trad_bc_ev=1000.0, opac=1.0, eps=0.1, x=1.0, tau=19.064, kind="decay"),
+]
+
+
 def gen(rng, i, tier):
+    if i in (3, 7):
+        return dict(REGRESSION[(i - 3) // 4])
     eps = choice(rng, [0.1, 1.0, logu(rng, 0.05, 2.0)])
     return dict(trad_bc_ev=logu(rng, 10, 1e4), opac=logu(rng, 0.1, 10), eps=eps, x=uni(rng, 0.3, 4.0), tau=logu(rng, 0.1, 20),
                 kind=["pde", "pde", "marshak", "decay"][i % 4])
+
+
+def rng_for(p):
+    return np.random.default_rng(abs(hash((round(p["tau"], 9), round(p["opac"], 9)))) % (2 ** 32))
 
 
 def uv(ctx, s, z, t, Tbc):
@@ -91,7 +103,8 @@ def run(ctx, p):
         # with x (measured 1e-4 at x = 650): "decays to zero" is decided to 5e-5 at 10-30 mean free paths beyond the wave.
         xw = RT3 * tau / eps + 2.0 * math.sqrt(tau / eps)
         xf = xw + 10.0
-        U, V = uv(ctx, s, z_of(np.array([xf, xf + 10.0, xf + 20.0])), t, Tbc)
+        # 41 positions: the quadrature's failure mode is narrow bands of positions (width ~0.15), not a smooth excess
+        U, V = uv(ctx, s, z_of(np.concatenate([[xf, xf + 10.0, xf + 20.0], xf + rng_for(p).uniform(0.0, 20.0, 38)])), t, Tbc)
         m = max(float(np.max(np.abs(U))), float(np.max(np.abs(V))))
         ctx.observe("so.decay", "SuOlson", m <= 5e-5, branch=br, measure=m, tol=5e-5, detail=dict(det, x=xf, U=U.tolist(), V=V.tolist()))
 
